@@ -37,6 +37,7 @@ kwargs are tuples of (name, term) sorted by name.
 from __future__ import annotations
 
 import ast
+import os
 import copy
 
 from .core import Func, Program, norm_src
@@ -902,6 +903,62 @@ class Terms:
         return out
 
     # internals ------------------------------------------------------------
+    def _canon_call(self, qual, args, kws):
+        """One spelling for a call of a repository function: arguments are
+        bound to the callee's parameters; an argument that repeats the
+        parameter's constant default is dropped; the longest prefix of
+        parameters that are all still supplied is written positionally, the
+        rest as sorted keywords.  f(a, y=b, x=c), f(a, c, b) and
+        f(x=c, y=b, p=a) are the same term; so are f(a) and f(a, flag=False)
+        when False is the default."""
+        plain = ("call", qual, args, kws)
+        if os.environ.get("MOKAPOT_NO_CALLCANON"):
+            return plain
+        f = self.prog.funcs.get(qual)
+        if f is None and qual in self.prog.classes:
+            f = self.prog.funcs.get(qual + ".__init__")
+        if f is None or isinstance(f.node, ast.Lambda):
+            return plain
+        a = f.node.args
+        if a.vararg or a.kwarg or any(x[0] in ("star", "**") or (
+                isinstance(x, tuple) and x and x[0] == "star")
+                for x in args) or any(k == "**" for k, _v in kws):
+            return plain
+        pos = [x.arg for x in a.posonlyargs + a.args]
+        kwonly = [x.arg for x in a.kwonlyargs]
+        if f.cls is not None and pos and pos[0] in ("self", "cls") and (
+                qual.endswith(".__init__") or qual in self.prog.classes
+                or f.qual.endswith(".__init__")):
+            pos = pos[1:]
+        elif f.cls is not None and pos and pos[0] in ("self", "cls"):
+            return plain      # unbound method called through the class
+        if len(args) > len(pos):
+            return plain
+        bound = dict(zip(pos, args))
+        for k, v in kws:
+            if k in bound or k not in pos + kwonly:
+                return plain
+            bound[k] = v
+        defaults = {}
+        for name, d in f.defaults().items():
+            if isinstance(d, ast.Constant):
+                defaults[name] = ("const", d.value)
+            elif isinstance(d, ast.UnaryOp) and isinstance(
+                    d.op, ast.USub) and isinstance(d.operand, ast.Constant):
+                defaults[name] = ("const", -d.operand.value)
+        for name in list(bound):
+            if name in defaults and bound[name] == defaults[name] and \
+                    type(bound[name][1]) is type(defaults[name][1]):
+                del bound[name]
+        out_pos = []
+        for name in pos:
+            if name in bound:
+                out_pos.append(bound.pop(name))
+            else:
+                break
+        return ("call", qual, tuple(out_pos),
+                tuple(sorted(bound.items(), key=lambda x: x[0])))
+
     def _kw(self, keywords, depth, cenv):
         out = []
         for kw in keywords:
@@ -960,7 +1017,7 @@ class Terms:
                 if inner == "joblib.delayed" and fn.args:
                     ft = self._t(fn.args[0], d1, cenv)
                     if ft[0] in ("name", "func"):
-                        return ("call", ft[1], args, kws)
+                        return self._canon_call(ft[1], args, kws)
                     if ft[0] == "attr":
                         return ("mcall", ft[1], ft[2], args, kws)
                     return ("callv", ft, args, kws)
@@ -968,7 +1025,7 @@ class Terms:
             if not self._is_local_root(fn, cenv):
                 dn = self.prog.dotted(self.func, self.mod, fn)
                 if dn is not None:
-                    return ("call", dn, args, kws)
+                    return self._canon_call(dn, args, kws)
             if isinstance(fn, ast.Attribute):
                 # self.method(...)
                 return ("mcall", self._t(fn.value, d1, cenv), fn.attr, args,
@@ -976,7 +1033,7 @@ class Terms:
             if isinstance(fn, ast.Name):
                 ft = self._t(fn, d1, cenv)
                 if ft[0] in ("name", "func"):
-                    return ("call", ft[1], args, kws)
+                    return self._canon_call(ft[1], args, kws)
                 if ft[0] == "free":
                     return ("call", "builtins." + fn.id, args, kws)
                 return ("callv", ft, args, kws)
